@@ -7,7 +7,7 @@ from .base import BaseProp
 
 class Prop(BaseProp):
     id = "C01"
-    groups = ["HashConsts", "ShardLayout", "ChunkConsts", "GearTable", "DedupFacts"]
+    groups = ["HashConsts", "ShardLayout", "ChunkConsts", "GearTable", "DedupFacts", "XorbLayout", "ReconFacts"]
     prop_file = "Props/C01.v"
     trusted_base = [
         "real sessions (FileUploadSession, SingleFileCleaner, ShardFileManager, LocalClient, FileDownloader) are judged by an independent oracle in the harness "
@@ -15,6 +15,7 @@ class Prop(BaseProp):
         "tokio scheduling of concurrently cleaned files: sampled (fp files), covered in the model by the oracle quantifier",
     ]
     assumptions = [
+        "C01_upload_then_download composes C04 (chunker), the resolution invariant, C07 (xorb range read) and C17 (writers): its one extra hypothesis is that the store returns, for the hash of each of the file's chunks, that chunk (content (hashf ch) = ch: no two different chunks of the store under one hash); the download modelled is the whole-file one (offset 0, the file's length), the fetch of a term is the chunk range of the named xorb (tied to the serialized object by C01_term_is_xorb_range_read); HTTP ranges, fetch-info coalescing and the chunk cache in between are C17's and C12's subject",
         "theorem hypotheses (StoreOk): no two xorbs of the store share a hash with different contents, no non-empty xorb hashes to zero, the first 8 bytes of distinct chunk hashes differ (the model keys the deduper's lookup by them), chunks are non-empty, every xorb the run uploads or registers is in the store, the data interface answers only with xorbs of the store (TableOk) and no xorb reaches 4 GiB",
         "configurations: HF_XET_TARGET_CHUNK_SIZE/MAX_XORB_BYTES/MAX_XORB_CHUNKS/NRANGES/INGESTION_BLOCK_SIZE scaled down through the code's own environment overrides (dev profile), one process per configuration",
         "the crate's debug-only shard self-check is switched off through the xet_verif hook (see DESIGN.md, observations)",
